@@ -476,7 +476,7 @@ pub fn property(ctx: &Ctx) -> Property {
     let c2 = ctx.clone();
     Property {
         id: "C06",
-        rule: "cases: properly nested histories with at least one push_layer_with_blend group (opacity in {0,1,0.5,1/255-neighbours,uniform}, 28 blend modes) at top level or under a clip (rect at an offset / partly off-surface / inverted, quarter-grid path), containing fills, fill_rects, masks, clear, image draws, quarter-pixel transform changes (one group in ten ends by setting a non-invertible transform, so that it is popped under it), balanced clip pushes and nested layers (depth <= 3), on non-transparent initial contents. Oracle: the group's inner ops are replayed without the layer on a separate transparent surface with the same transform and clip stack (nested layers judged recursively there); after pop every pixel must equal the compositor formula with source = isolated group pixel, coverage = round(255 opacity), clip coverage = product of pushed path coverages, blend = layer blend (exact at opacity 1 without partial clip, +-3/255 otherwise); outside the clip rectangle unchanged; the base surface must not change while the layer is open; push/pop leave the transform alone. part interleaved: clip rect at an offset, layer, a draw, then a second draw (any kind, any transform, in a third of the cases inside a further layer) made either after or before the clip is popped; pixels inside the rectangle must be bit-identical between the two orders; outside it, pixels that no draw reached must keep their value when the layer's blend mode keeps the destination under a transparent source. A third of the cases push the clip *inside* the layer and pop it after pop_layer (with a draw in between that must still be clipped): bit-identical to the history that pushes the same clip just before the layer. Non-trivial: opacity != 1, blend != SrcOver, nesting >= 2, layer origin != (0,0) or clear inside; distinct by hash of the case.",
+        rule: "cases: properly nested histories with at least one push_layer_with_blend group (opacity in {0,1,0.5,1/255-neighbours,uniform}, 28 blend modes) at top level or under a clip (rect at an offset / partly off-surface / inverted, quarter-grid path), containing fills, fill_rects, masks, clear, image draws, quarter-pixel transform changes (one group in ten ends by setting a non-invertible transform, so that it is popped under it), balanced clip pushes and nested layers (depth <= 3), on non-transparent initial contents. Oracle: the group's inner ops are replayed without the layer on a separate transparent surface with the same transform and clip stack (nested layers judged recursively there); after pop every pixel must equal the compositor formula with source = isolated group pixel, coverage = round(255 opacity), clip coverage = product of pushed path coverages, blend = layer blend (exact at opacity 1 without partial clip, +-3/255 otherwise); outside the clip rectangle unchanged; the base surface must not change while the layer is open; push/pop leave the transform alone. part interleaved: clip rect at an offset, layer, a draw, then a second draw (any kind, any transform, in a third of the cases inside a further layer) made either after or before the clip is popped; pixels inside the rectangle must be bit-identical between the two orders; outside it, pixels that no draw reached must keep their value when the layer's blend mode keeps the destination under a transparent source. A third of the cases push the clip *inside* the layer and pop it after pop_layer (with a draw in between that must still be clipped): bit-identical to the history that pushes the same clip just before the layer. One clipped group in eight lies beside the surface in one axis only (an empty clip whose bounds are not empty rectangles), and a panic of the library in any of these histories, other than the known sw-composite ones, is a failure of this property (an empty layer must be harmless). Non-trivial: opacity != 1, blend != SrcOver, nesting >= 2, layer origin != (0,0) or clear inside; distinct by hash of the case.",
         assumptions: vec!["the inner draws themselves (on a plain surface) are judged by C02/C03/C05", "improperly interleaved stacks (popping inside a layer a clip pushed outside it): the statement does not say what a draw outside the layer's original clip means, so part interleaved only demands what holds under every reading (inside the rectangle, popping the clip before or after the draw is the same)"],
         parts: vec![part("group", 100_000, 1_500_000, move || strategy(&c), check), part("interleaved", 30_000, 600_000, move || interleaved_strategy(&c2), check_interleaved)],
         min_class_fraction: vec![
